@@ -415,6 +415,8 @@ func fragStream(r *rand.Rand, n int, tier string, o *hx.Out) {
 // genuine fragments every delivered payload is one of the payloads told by the source it is attributed to,
 // a message none of whose ... fragments was withheld is delivered, a message with a withheld fragment never is;
 // a payload no longer than MTU() is accepted and one longer is refused with the MTU error; nothing panics.
+var limitDone = map[string]bool{}
+
 func fragOracle(r *rand.Rand, n int, tier string, infile string) (cases int, fails []string) {
 	o := hx.NewOut("/dev/null", 0)
 	defer o.Close("")
@@ -438,6 +440,49 @@ func fragOracle(r *rand.Rand, n int, tier string, infile string) (cases int, fai
 				}
 				fails = append(fails, fmt.Sprintf(f, a...)+" history=["+strings.Join(h, "; ")+"]")
 			}
+		}
+		if oracleOffset == 0 && !limitDone[kind] {
+			// the largest message the layer advertises at the smallest part size (one payload byte per datagram): exactly
+			// MTU() bytes, i.e. as many parts as the part-count field can express, loss-free and in order: it arrives once,
+			// intact (C09), and nothing else is delivered (C10)
+			limitDone[kind] = true
+			over := 15
+			if kind == "mb" {
+				over = 24
+			}
+			run := func(op string) string {
+				cases++
+				st.apply(strings.Fields(op), o)
+				return o.Last()
+			}
+			res := run(fmt.Sprintf("%s-new %d %d", kind, over+1, 1<<20))
+			lim, _ := strconv.Atoi(strings.TrimPrefix(res, "mtu="))
+			if lim > 0 && lim <= 1<<17 {
+				payload := hx.Bytes(r, lim)
+				res = run(fmt.Sprintf("%s-tell 0 %s", kind, hx.Hex(payload)))
+				if !strings.HasPrefix(res, "pkts ") {
+					bad("C09 %s payload of exactly MTU()=%d bytes at one byte per part is not sent: %s", kind, lim, res[:min(len(res), 80)])
+				} else {
+					got, wrong := 0, 0
+					for _, p := range strings.Split(strings.TrimPrefix(res, "pkts "), ",") {
+						if p == "" {
+							continue
+						}
+						d := run(fmt.Sprintf("%s-recv 0 %s", kind, p))
+						if d == "none" {
+							continue
+						}
+						got++
+						if x := strings.TrimPrefix(strings.TrimPrefix(d, "deliver "), "tell "); x != hx.Hex(payload) {
+							wrong++
+						}
+					}
+					if got != 1 || wrong != 0 {
+						bad("C10 %s payload of exactly MTU()=%d bytes at one byte per part, every fragment handed over once and in order: %d deliveries, %d of them not the told payload", kind, lim, got, wrong)
+					}
+				}
+			}
+			continue
 		}
 		if r.Intn(6) == 0 { // loss-free, in-order transfer of a payload that needs many parts: it must arrive once, intact
 			over := 15
